@@ -1926,6 +1926,11 @@ class Ev:
             self.assign(st.target, self.eval(st.value, env, mod), env, mod)
 
     def s_AugAssign(self, st, env, mod):
+        if isinstance(st.target, ast.Subscript):
+            base_ = self.eval(st.target.value, env, mod)
+            if getattr(base_, "deepcopy_of_array_mapping", False):
+                raise self.err("in-place update of an element of a mapping made by ONE copy.deepcopy of a mapping of arrays: elements that were the same array are still the "
+                               "same array in the copy, which the symbolic values cannot represent", st, mod)
         cur = self.eval(st.target, env, mod)
         v = self.binop(st.op, cur, self.eval(st.value, env, mod), st, mod)
         if isinstance(cur, ArrV) and isinstance(v, ArrV) and v is not cur and v.shape == cur.shape and v.batch == cur.batch and v.batch_last == cur.batch_last \
@@ -5064,7 +5069,12 @@ def lib_copy_deepcopy(ev, a, k, n, mod):
         return v
     if len(a) != 1:
         raise ev.err("copy.deepcopy with a memo argument", n, mod)
-    return rec(a[0])
+    out_ = rec(a[0])
+    if isinstance(out_, DictV) and any(is_sym(v_) and not isinstance(v_, bool) and sp.sympify(v_).free_symbols for v_ in out_.d.values()):
+        # the values stand for arrays: two keys that held ONE array still hold one array in the copy (deepcopy's memo); symbols cannot show that,
+        # so an in-place update of an element of this mapping is refused by the folder (see s_AugAssign) rather than folded as if the elements were private
+        out_.deepcopy_of_array_mapping = True
+    return out_
 
 
 lib_copy_copy.kw = set()
